@@ -498,11 +498,7 @@ def _transition(model: str, init: str, key: str, history: typing.List[str], eid:
     img = _image(model, dst)
     kept = False
     if not img.exists():
-        try:
-            os.rename(work, img)
-            kept = True
-        except OSError:
-            pass
+        kept = fsm.store_image(work, img)
     if not kept:
         fsm.rm_tree(work)
     case = {"model": model, "init": init, "history": list(history) + [eid]}
@@ -640,7 +636,8 @@ def run(ctx: Ctx) -> int:
             key = fsm.key_of(fsm.snap(tmp))
             if key in [k for k, _ in inits[m]]:
                 raise HarnessError(f"[{m}] two initial states coincide ({init})")
-            os.rename(tmp, _image(m, key))
+            if not fsm.store_image(tmp, _image(m, key)):
+                raise HarnessError(f"[{m}] cannot store the image of initial state {init}")
             inits[m].append((key, init))
 
     # 3. one BFS per family; (state, event) pairs already executed for another family are not executed again
